@@ -8,5 +8,5 @@ import (
 )
 
 func main() {
-	os.Exit(ffsm.Main("C03", map[string]bool{"acked-entry-not-stored": true, "acked-entry-truncated": true, "state-not-fold-of-log": true, "commit-offset-ahead-of-log": true, "snapshot-ack-offset": true, "harness-setup": true, "panic": true}, ""))
+	os.Exit(ffsm.Main("C03", map[string]bool{"acked-entry-not-stored": true, "acked-entry-truncated": true, "truncate-to-entry-not-held-accepted": true, "state-not-fold-of-log": true, "commit-offset-ahead-of-log": true, "snapshot-ack-offset": true, "harness-setup": true, "panic": true}, ""))
 }
